@@ -282,6 +282,7 @@ func debugStore() bool { return os.Getenv("VERIF_DEBUG") != "" }
 type storeGenState struct {
 	r   *hx.Rng
 	occ map[[2]int]byte // generator's own guess of what is stored (only to bias choices)
+	np  int             // number of paths per account (6; 40 in "wide" histories whose domain maps span several slabs)
 }
 
 func storeRandVal(r *hx.Rng) string {
@@ -322,20 +323,33 @@ func (g *storeGenState) key(preferOccupied bool) (int, int) {
 		for k := range g.occ {
 			keys = append(keys, k)
 		}
-		sort.Slice(keys, func(i, j int) bool { return keys[i][0]*10+keys[i][1] < keys[j][0]*10+keys[j][1] })
+		sort.Slice(keys, func(i, j int) bool { return keys[i][0]*100+keys[i][1] < keys[j][0]*100+keys[j][1] })
 		k := keys[r.Intn(len(keys))]
 		return k[0], k[1]
 	}
-	return r.Intn(3), r.Intn(6)
+	if g.np > 6 && r.Chance(80) {
+		return 0, r.Intn(g.np)
+	}
+	return r.Intn(3), r.Intn(g.np)
 }
 
 func (g *storeGenState) op() string {
 	r := g.r
-	switch x := r.Intn(100); {
+	x := r.Intn(100)
+	if g.np > 6 && r.Chance(35) {
+		x = 0
+	}
+	switch {
 	case x < 28:
 		a, p := g.key(false)
 		if _, o := g.occ[[2]int{a, p}]; o && r.Chance(70) { // mostly avoid the overwrite abort
-			a, p = r.Intn(3), r.Intn(6)
+			a, p = r.Intn(3), r.Intn(g.np)
+		}
+		for try := 0; g.np > 6 && try < 20; try++ { // wide histories: fill the account, avoid aborts
+			if _, o := g.occ[[2]int{a, p}]; !o {
+				break
+			}
+			a, p = 0, r.Intn(g.np)
 		}
 		v := storeRandVal(r)
 		t := r.Pick(storeSupers(v[0]))
@@ -365,6 +379,9 @@ func (g *storeGenState) op() string {
 	case x < 98:
 		return fmt.Sprintf("fe,%d", r.Intn(3))
 	default:
+		if g.np > 6 {
+			return "ps,0"
+		}
 		return "pn"
 	}
 }
@@ -372,7 +389,7 @@ func (g *storeGenState) op() string {
 // a type argument that is mostly a supertype of what the generator believes is stored
 func (g *storeGenState) typeFor(a, p int, universe []string) string {
 	r := g.r
-	if k, ok := g.occ[[2]int{a, p}]; ok && r.Chance(70) {
+	if k, ok := g.occ[[2]int{a, p}]; ok && (r.Chance(70) || g.np > 6) {
 		sup := storeSupers(k)
 		t := r.Pick(sup)
 		for _, u := range universe {
@@ -407,14 +424,22 @@ func genStore(c *hx.Ctx) {
 		}
 	}
 	for i := 0; i < c.N; i++ {
-		g := &storeGenState{r: r, occ: map[[2]int]byte{}}
+		g := &storeGenState{r: r, occ: map[[2]int]byte{}, np: 6}
 		ntx := 2 + r.Intn(8)
+		wide := r.Chance(8)
+		if wide {
+			g.np = 40
+			ntx = 6 + r.Intn(6)
+		}
 		if c.Thorough() && r.Chance(20) {
 			ntx = 10 + r.Intn(30)
 		}
 		txs := make([]string, ntx)
 		for j := range txs {
 			nops := 1 + r.Intn(7)
+			if wide {
+				nops = 8 + r.Intn(25)
+			}
 			ops := make([]string, nops)
 			for k := range ops {
 				ops[k] = g.op()
